@@ -247,6 +247,8 @@ fn one_case(ctx: &WorkerCtx, rep: &mut WorkerReport, case_seed: u64, blocks: u64
     let (net, _) = net_for_shard(ctx.shard);
     let mut rng = Rng::new(case_seed);
     let mut w = World::new(case_seed, rpc::chain_id_for(net));
+    let scale = scale_world(&mut w, case_seed, true, false);
+    rep.set_add("scale_profiles", scale);
     w.profile.p_empty_block = 12;
     let mut a = new_driver("C10");
     for b in 0..blocks {
